@@ -239,6 +239,8 @@ def pipeline_cases(ctx):
     import h5py
     for k in range(ctx.n(4, 80)):
         fmt = rng.choice(["klmGac", "podGac"])
+        if k < 2:
+            fmt = ("klmGac", "podGac")[k]
         n = 16
         start_ms = ydm_to_ms(2002, 187, 68700000) if fmt == "klmGac" else ydm_to_ms(2000, 322, 3600000)
         crossing = k % 2 == 1
@@ -257,6 +259,13 @@ def pipeline_cases(ctx):
         num = n - lead - trail
         pool = [(0, 0), (1, 0), (2, 5), (0, num + 3), (num, 0), (3, 0), (5, 9), (1, 2)]
         requests = [rng.choice(pool[:5])] + ([rng.choice(pool) for _ in range(rng.randint(1, 2))] if crossing or k % 4 == 0 else [])
+        if k < 2:
+            # always present: the WHOLE pass, no line without coordinates at either end, written twice from one reader (the
+            # slicing step has nothing to cut there; what it hands to the writer must still not be the reader's own arrays)
+            lead = trail = 0
+            b.quality[:] = 0
+            num = n
+            requests = [(0, 0), (0, 0)]
         data = b.tobytes()
         r = filegen.reader_class(fmt)(tle_dir=filegen.tle_dir(ctx), tle_name="TLE_%(satname)s.txt")
         r.read(b.dsname, fileobj=io.BytesIO(data))
